@@ -7,7 +7,7 @@ from props import luagen
 from props import mincommon as mc
 
 ID = 'C01'
-GEN_FILES = ['T_lexer', 'T_luanames', 'T_minifier', 'T_minwiring_lua', 'T_minwiring_tool', 'T_minwiring_build']
+GEN_FILES = ['T_lexer', 'T_luanames', 'T_minifier', 'T_minifier_p8', 'T_minwiring_lua', 'T_minwiring_tool', 'T_minwiring_build']
 COQ_PROPERTY = 'theories/Properties/C01.vo'
 COQ_EXTRA = []
 MODEL = ('ExC01', 'c01_main.ml')
@@ -271,7 +271,8 @@ def run_cases(cases, ctx):
             res['histogram']['sources-inside-reference-dialect'] = inside
             res['histogram']['sources-outside-reference-dialect'] = len(srcs) - inside
             ok = {s for s, a in zip(srcs, ans) if a != 'N' and int(a.split(' ')[1]) >= 2}
-            res['nontrivial'] = len({(c['kind'], c['src'], c.get('cfg')) for c in cases if c['kind'] != 'fuses' and c['src'] in ok}) + 256
+            res['nontrivial'] = len({(c['kind'], c['src'], c.get('cfg')) for c in cases if c['kind'] != 'fuses' and c['src'] in ok}) + \
+                len([c for c in cases if c['kind'] == 'fuses'])
     finally:
         mc.cleanup()
     res['evaluations'] = sum(257 * len(c['prevs']) if c['kind'] == 'fuses' else 1 for c in cases)
